@@ -41,6 +41,7 @@ DIMS = [
     Dim("line-buffer-size", [("32", {}), ("0", {"line-buffer-size": "0"})]),
     Dim("width", [("40", {}), ("variable", {"width": "variable"})]),
     Dim("relative", [("off", {}), ("on", {"relative-paths": True})]),
+    Dim("commit-style", [("reserved", {}), ("raw", {"commit-style": "raw", "commit-decoration-style": "none"})]),
 ]
 
 
@@ -176,7 +177,7 @@ def main(tier):
     build.ensure_built()
     d = 1 if tier == "quick" else 2
     configs = deviations(DIMS, d)
-    K = producers.SECTION_KINDS
+    K = producers.SECTION_KINDS + ["commit", "binary_noindex"]
     tasks = []
     git_secs = sections_for("git", K, producers.BODY_KINDS)
     small = sections_for("git", K, ["ctx", "minus", "nonl"])
